@@ -601,6 +601,11 @@ func (c *Conn) Write(payload []byte) (int, error) {
 	if errors.Is(err, context.Canceled) && errors.Is(context.Cause(ctx), context.DeadlineExceeded) {
 		return len(payload), dtlserrors.ErrDeadlineExceeded
 	}
+	if errors.Is(err, context.Canceled) && c.isConnectionClosed() {
+		// A write interrupted by Close reports the closed connection, as the
+		// DTLS 1.2 path and UpdateKeys do, not the internal cancellation.
+		return len(payload), ErrConnClosed
+	}
 
 	return len(payload), err
 }
